@@ -23,6 +23,9 @@ Keys2 == {<<Key(c1, d1), Key(c2, d2)>> : c1 \in {"k", "s"}, c2 \in {"k", "s"}, d
 Keys3 == {<<Key("k", FALSE), Key("s", TRUE), Key("k", TRUE)>>, <<Key("s", TRUE), Key("k", TRUE), Key("s", FALSE)>>}
 \* ORDER BY on an aliased output column
 AliasSel == <<Item(Col("k"), "x"), Item(Col("s"), "")>>
+\* ... whose name is no plain word (an alias is a name, not a path: `m-c`, a two-byte letter, a name with a dot)
+AliasSelY(nm) == <<Item(Col("k"), nm), Item(Col("s"), "")>>
+OddNames == {"m-c", "k l", "n.q"}
 KeysX == {<<Key("x", d)>> : d \in BOOLEAN} \cup {<<Key("s", d1), Key("x", d2)>> : d1 \in BOOLEAN, d2 \in BOOLEAN}
 
 Wins0 == {<<-1, -1, "">>, <<1, 1, "">>, <<2, 0, "comma">>}
@@ -43,6 +46,8 @@ Init ==
             cs = [fam |-> "order", q |-> MkQ(<<Star>>, ks, w), doc |-> Doc1("t", tbl)]
        \/ \E tbl \in SeqsUpTo(ORows, MaxRows) : \E ks \in KeysX : \E w \in Wins0 :
             cs = [fam |-> "alias", q |-> MkQ(AliasSel, ks, w), doc |-> Doc1("t", tbl)]
+       \/ \E tbl \in SeqsUpTo(ORows, MaxRows) : \E nm \in OddNames : \E d \in BOOLEAN : \E w \in {<<-1, -1, "">>, <<1, 1, "">>} :
+            cs = [fam |-> "alias", q |-> MkQ(AliasSelY(nm), <<Key(nm, d)>>, w), doc |-> Doc1("t", tbl)]
        \/ \E tbl \in SeqsUpTo(WRows, MaxWin) : \E ks \in {<<Key("k", TRUE)>>, <<Key("k", FALSE)>>} : \E w \in {<<1, -1, "">>, <<1, 1, "">>, <<2, 0, "comma">>, <<-1, -1, "">>} :
             cs = [fam |-> "distinct", q |-> [MkQ(<<Item(Col("k"), "")>>, ks, w) EXCEPT !.distinct = TRUE], doc |-> Doc1("t", tbl)]
        \* a select list made of aggregates only yields one row: the window applies to that one-row sequence
